@@ -957,7 +957,80 @@ func (rw *rewriter) stmt(st ast.Stmt) (pre []ast.Stmt, out ast.Stmt) {
 			cc.Body = rw.stmts(cc.Body)
 		}
 	case *ast.SelectStmt:
-		fatal("%s: select is not modelled", rw.pos(n))
+		// select { case c1: B1 … default: D }  ->
+		//   switch vrtSelN := vrt.Select(hasDefault, cases…); vrtSelN {
+		//   case -2: <the original select>          (not under the scheduler)
+		//   case 0: <comm 1 as a plain operation>; B1 …
+		//   default: D }
+		rw.st.Send++
+		rw.tmpN++
+		sel := ast.NewIdent(fmt.Sprintf("vrtSel%d", rw.tmpN))
+		orig := &ast.SelectStmt{Select: n.Select, Body: &ast.BlockStmt{}}
+		var cases []ast.Expr
+		var clauses []ast.Stmt
+		hasDefault := false
+		idx := 0
+		for _, c := range n.Body.List {
+			cc := c.(*ast.CommClause)
+			// the copy for the un-scheduled branch keeps the original comm and the (shared, rewritten) body
+			if cc.Comm == nil {
+				hasDefault = true
+				body := rw.stmts(cc.Body)
+				orig.Body.List = append(orig.Body.List, &ast.CommClause{Case: cc.Case, Colon: cc.Colon, Body: []ast.Stmt{&ast.ExprStmt{X: &ast.CallExpr{Fun: &ast.FuncLit{Type: &ast.FuncType{Params: &ast.FieldList{}}, Body: &ast.BlockStmt{}}}}}})
+				clauses = append(clauses, &ast.CaseClause{Body: body})
+				continue
+			}
+			var ch ast.Expr
+			send := false
+			switch cm := cc.Comm.(type) {
+			case *ast.SendStmt:
+				ch, send = cm.Chan, true
+			case *ast.ExprStmt:
+				ch = cm.X.(*ast.UnaryExpr).X
+			case *ast.AssignStmt:
+				ch = cm.Rhs[0].(*ast.UnaryExpr).X
+			}
+			if ch == nil || !simpleExpr(ch) {
+				fatal("%s: select on a channel expression that is not a plain variable or field is not modelled", rw.pos(n))
+			}
+			sv := "false"
+			if send {
+				sv = "true"
+			}
+			cases = append(cases, &ast.CompositeLit{Type: &ast.SelectorExpr{X: ast.NewIdent("vrt"), Sel: ast.NewIdent("SelCase")},
+				Elts: []ast.Expr{&ast.KeyValueExpr{Key: ast.NewIdent("Ch"), Value: cloneExpr(ch)}, &ast.KeyValueExpr{Key: ast.NewIdent("Send"), Value: ast.NewIdent(sv)}}})
+			body := append([]ast.Stmt{cc.Comm}, rw.stmts(cc.Body)...)
+			clauses = append(clauses, &ast.CaseClause{List: []ast.Expr{&ast.BasicLit{Kind: token.INT, Value: strconv.Itoa(idx)}}, Body: body})
+			idx++
+		}
+		if len(cases) == 0 {
+			fatal("%s: select without communication cases is not modelled", rw.pos(n))
+		}
+		hd := "false"
+		if hasDefault {
+			hd = "true"
+		}
+		rw.usedVrt = true
+		call := rw.call("Select", append([]ast.Expr{ast.NewIdent(hd)}, cases...)...)
+		// not under the scheduler (-2): the statement as it was written, its bodies rewritten all the same
+		plain := &ast.SelectStmt{Select: n.Select, Body: &ast.BlockStmt{}}
+		for i, c := range n.Body.List {
+			cc := c.(*ast.CommClause)
+			var body []ast.Stmt
+			if cs, ok := clauses[i].(*ast.CaseClause); ok {
+				body = cs.Body
+				if cc.Comm != nil {
+					body = body[1:]
+				}
+			}
+			plain.Body.List = append(plain.Body.List, &ast.CommClause{Case: cc.Case, Comm: cc.Comm, Colon: cc.Colon, Body: body})
+		}
+		_ = orig
+		if !hasDefault {
+			clauses = append(clauses, &ast.CaseClause{Body: []ast.Stmt{&ast.ExprStmt{X: &ast.CallExpr{Fun: ast.NewIdent("panic"), Args: []ast.Expr{&ast.BasicLit{Kind: token.STRING, Value: `"vrt: select without a ready case"`}}}}}})
+		}
+		clauses = append([]ast.Stmt{&ast.CaseClause{List: []ast.Expr{&ast.UnaryExpr{Op: token.SUB, X: &ast.BasicLit{Kind: token.INT, Value: "2"}}}, Body: []ast.Stmt{plain}}}, clauses...)
+		out = &ast.SwitchStmt{Init: &ast.AssignStmt{Lhs: []ast.Expr{sel}, Tok: token.DEFINE, Rhs: []ast.Expr{call}}, Tag: ast.NewIdent(sel.Name), Body: &ast.BlockStmt{List: clauses}}
 	case *ast.DeclStmt:
 		if gd, ok := n.Decl.(*ast.GenDecl); ok {
 			for _, sp := range gd.Specs {
